@@ -167,16 +167,15 @@ def select_start_nodes(td, env, num_starts):
             + 1
         )
         if env.name == "op":
-            if (td["action_mask"][..., 1:].float().sum(-1) < num_starts).any():
-                # for the orienteering problem, we may have some nodes that are not available
-                # so we need to resample from the distribution of available nodes
-                selected = (
-                    torch.multinomial(
-                        td["action_mask"][..., 1:].float(), num_starts, replacement=True
-                    )
-                    + 1
-                )  # re-add depot index
-                selected = rearrange(selected, "b n -> (n b)")
+            # for the orienteering problem some nodes may be too far away to be visited at all:
+            # start from the feasible nodes only (in index order, cycling through them when an instance
+            # has fewer than `num_starts` of them; the depot if it has none)
+            feasible = td["action_mask"][..., 1:]
+            order = torch.argsort(feasible.int(), dim=-1, descending=True, stable=True)
+            n_feasible = feasible.sum(-1, keepdim=True)
+            idx = torch.arange(num_starts, device=td.device)[None, :] % n_feasible.clamp(min=1)
+            selected = torch.where(n_feasible > 0, order.gather(1, idx) + 1, 0)
+            selected = rearrange(selected, "b n -> (n b)")
     return selected
 
 
